@@ -1,6 +1,6 @@
 import FimVerif.Model.SliverRich
 import FimVerif.Proofs.C03
-import FimVerif.Proofs.C12
+import FimVerif.Proofs.Lemmas.C12Codec
 import FimVerif.Proofs.Lemmas.C02Check
 import FimVerif.Proofs.Lemmas.C02Routes
 import FimVerif.Proofs.Lemmas.C02Graph
@@ -10,6 +10,15 @@ models of C03 (JSONField classes, Tags, Gateway, PathInfo, ERO, MaintenanceInfo,
 table passing the Bool checks), `typed_wf` (a whole sliver tree). -/
 namespace FimVerif.C02
 open FimVerif FimVerif.Sliver FimVerif.Gen.SliverMap FimVerif.SliverRich
+
+/-- C12's `delegations_roundtrip_partial` (same statement, same four-line proof from C12's lemmas `encode_wf` and
+`decode_fold`; restated here so that this file depends on C12's codec lemmas only, not on the rest of `Proofs/C12.lean`) -/
+theorem deleg_roundtrip {D : Type} (ops : Deleg.DetailOps D) (ds : Deleg.Delegations D) (h : C12.WF ops ds) :
+    (Deleg.encode ops ds).bind (Deleg.decode ops ds.ty) = .ok ds := by
+  rw [C12.encode_wf ops ds h]
+  simp only [Except.bind, Deleg.decode]
+  rw [C12.decode_fold ops ds.ty ds.items { ty := ds.ty, items := [] } rfl h.1 (by simpa using h.2)]
+  simp
 
 /-- the validators a `JSONField` class is decoded with: only `Labels` has any -/
 def validFor (R : Params) (cls : String) : String → JVal → Bool := if cls = "Labels" then R.valid else fun _ _ => true
@@ -139,7 +148,7 @@ theorem rich_rowLaw (R : Params) (e : Enc) (f : FromRow) (v : RVal) (h : WTVal R
     obtain ⟨he, hd, hty, hwf⟩ := h
     subst he
     apply readVal_of_dec
-    · have hrt := C12.delegations_roundtrip_partial Deleg.detOps ds hwf
+    · have hrt := deleg_roundtrip Deleg.detOps ds hwf
       cases hj : Deleg.encode Deleg.detOps ds with
       | error e => rw [hj] at hrt; simp [Except.bind] at hrt
       | ok j =>
